@@ -78,6 +78,22 @@ def _mpfr_eval(
     return mpfr_call(gmp_fn, gmp_args, prec=prec, n=n)
 
 
+_GUARD_DIGITS = 64
+"""extra digits carried by an intermediate value of a constant expression"""
+
+def _guarded(fn: Callable[[], gmp.mpfr]) -> gmp.mpfr:
+    """
+    Evaluates `fn()` with extra digits under round-to-nearest.
+
+    The operation applied to the result under the caller's context
+    (round towards zero) is then the only rounding that is visible,
+    and its ternary value reports the inexactness of the whole expression.
+    """
+    ctx = gmp.get_context()
+    with gmp.context(ctx, precision=ctx.precision + _GUARD_DIGITS, round=gmp.RoundToNearest):
+        return fn()
+
+
 # From `titanfp` package
 # TODO: some of these are unsafe
 _constant_exprs: dict[_Constant, Callable[[], gmp.mpfr]] = {
@@ -87,8 +103,9 @@ _constant_exprs: dict[_Constant, Callable[[], gmp.mpfr]] = {
     _Constant.LN2 : gmp.const_log2,
     _Constant.LN10 : lambda: gmp.log(10),
     _Constant.PI : gmp.const_pi,
-    _Constant.PI_2 : lambda: gmp.const_pi() / 2, # division by 2 is exact
-    _Constant.PI_4 : lambda: gmp.const_pi() / 4, # division by 4 is exact
+    # dividing an already rounded pi is exact, which would report pi / 2 as exact
+    _Constant.PI_2 : lambda: _guarded(gmp.const_pi) / 2,
+    _Constant.PI_4 : lambda: _guarded(gmp.const_pi) / 4,
     _Constant.M_1_PI : lambda: 1 / gmp.const_pi(), # TODO: may be inaccurate
     _Constant.M_2_PI : lambda: 2 / gmp.const_pi(), # TODO: may be inaccurate
     _Constant.M_2_SQRTPI : lambda: 2 / gmp.sqrt(gmp.const_pi()), # TODO: may be inaccurate
